@@ -12,10 +12,10 @@ BUILDERS = ["disjunctive", "agent_task", "agent_task_jobs", "complete_agent_task
 
 class Check(PropertyCheck):
     ID = "C17"
-    LEAN_MODULE = "JobShopProofs.ResidualComplete"
+    LEAN_MODULE = "JobShopProofs.Properties.C17All"
     THEOREMS = ["JS.C17_built_inv", "JS.C17_no_dangling_edges", "JS.C17_removed_monotone", "JS.C17_removeNode_spec",
                 "JS.C17_completed_removed", "JS.residualUpdate_inv",
-                "JS.anch_build", "JS.anch_removeNode", "JS.anch_residualUpdate", "JS.anchM_residualUpdate", "JS.anchJ_residualUpdate", "JS.C17_world", "JS.C17_complete_all_removed", "JS.C17_complete_needs_a_job"]
+                "JS.anch_build", "JS.anch_removeNode", "JS.anch_residualUpdate", "JS.anchM_residualUpdate", "JS.anchJ_residualUpdate", "JS.C17_world", "JS.C17_complete_all_removed", "JS.C17_complete_needs_a_job", "JS.C17_residual_helpers_subscribed", "JS.C17_residual_helpers_detail", "JS.C17_residual_helper_not_unsubscribed"]
     RULE = ("positive-duration instances (classic, irregular, recirculation, flexible, unused machine ids) x the four graph "
             "builders x the four option combinations of ResidualGraphUpdater x optional extra observers created before it x "
             "filter configuration; after every dispatch of a random history (and after a reset + second episode) the removed "
